@@ -25,8 +25,9 @@ using vh::Rng;
 struct Ty { bool isBit = true; int w = 1; bool operator==(const Ty &o) const { return isBit == o.isBit && w == o.w; } };
 static std::string tyStr(const Ty &t) { return t.isBit ? "b" : "u" + std::to_string(t.w); }
 
-enum SelK { S_SLICE, S_BIT, S_DBIT, S_DPART, S_DSLICE };
-struct Sel { SelK k; int a = 0, b = 0; };
+enum SelK { S_SLICE, S_BIT, S_DBIT, S_DPART, S_DSLICE,
+            S_SEL };   // x(Selection::…): form 'A' All(), 'F' From(a), 'R' Range(a,b), 'I' RangeIncl(a,b), 'L' Slice(a,b), 'Y' Symbol(a, b_b); a, b may be negative
+struct Sel { SelK k; int a = 0, b = 0; char form = 0; };
 
 enum ExprK { E_CONST, E_READ, E_NOT, E_OP2 };
 static const char *opNames[] = {"&", "|", "^", "+", "-", "==", "!=", "<"};
@@ -58,6 +59,7 @@ static void printPath(std::ostream &o, const std::vector<Sel> &p) {
 		case S_DBIT: o << " db:" << s.a; break;
 		case S_DPART: o << " dp:" << s.a << ':' << s.b; break;
 		case S_DSLICE: o << " ds:" << s.a << ':' << s.b; break;
+		case S_SEL: o << " q:" << s.form << ':' << s.a << ':' << s.b; break;
 	}
 }
 static void printExpr(std::ostream &o, const Expr &e) {
@@ -104,6 +106,7 @@ static std::vector<Sel> parsePath(Tok &tk) {
 		else if (f[0] == "i") sel = {S_BIT, atoi(f[1].c_str()), 0};
 		else if (f[0] == "db") sel = {S_DBIT, atoi(f[1].c_str()), 0};
 		else if (f[0] == "dp") sel = {S_DPART, atoi(f[1].c_str()), atoi(f[2].c_str())};
+		else if (f[0] == "q") { sel = {S_SEL, atoi(f[2].c_str()), atoi(f[3].c_str())}; sel.form = f[1][0]; }
 		else sel = {S_DSLICE, atoi(f[1].c_str()), atoi(f[2].c_str())};
 		p.push_back(sel);
 	}
@@ -173,6 +176,29 @@ struct Gen {
 		auto c = varsOf([&](const VarInfo &v) { return !v.ty.isBit && v.ty.w >= 1 && v.ty.w <= 4 && ok(v.ty.w); });
 		return c.empty() ? -1 : c[rng.below(c.size())];
 	}
+	// a Selection form that addresses `w` bits at `off` of a Wc bit wide parent, written with non-negative or negative (from the top) numbers:
+	// BitVectorSliceStatic's constructor: offset = start >= 0 ? start : start + W; width = untilEnd ? W - offset : (width >= 0 ? width : width + W)
+	Sel genSelection(int Wc, Ty &res) {
+		int w = (int)rng.range(1, Wc), off = (int)rng.below(Wc - w + 1);
+		if (rng.chance(1, 4)) off = Wc - w;                 // reaches the top: From / All possible
+		std::string forms = "LRI";
+		if (off + w == Wc) forms += "FF";
+		if (off == 0 && w == Wc) forms += "A";
+		if (off % w == 0) forms += "Y";
+		Sel s{S_SEL, 0, 0}; s.form = forms[rng.below(forms.size())];
+		int start = rng.chance(1, 2) ? off : off - Wc;      // off - Wc < 0 always
+		int wp = (w < Wc && rng.chance(1, 2)) ? w - Wc : w; // negative width parameter: counted from the top (never 0)
+		switch (s.form) {
+			case 'A': break;
+			case 'F': s.a = start; break;
+			case 'R': s.a = start; s.b = start + wp; break;
+			case 'I': s.a = start; s.b = start + wp - 1; break;
+			case 'L': s.a = off; s.b = w; break;
+			case 'Y': s.a = ((off - Wc) % w == 0 && rng.chance(1, 2)) ? (off - Wc) / w : off / w; s.b = w; break;
+		}
+		res = Ty{false, w};
+		return s;
+	}
 	// random selection path on a UInt of width W; returns resulting type
 	bool genPath(int W, std::vector<Sel> &p, Ty &res, int maxLen, bool forWrite) {
 		res = Ty{false, W};
@@ -181,6 +207,7 @@ struct Gen {
 			int Wc = res.w;
 			if (len > 0 && !rng.chance(1, 3)) break;
 			unsigned k = (unsigned)rng.below(100);
+			if (rng.chance(1, 5)) { p.push_back(genSelection(Wc, res)); continue; }     // x(Selection::…), negative starts / ends count from the top
 			if (k < 30) { int w = (int)rng.range(1, Wc); int off = (int)rng.below(Wc - w + 1); p.push_back({S_SLICE, off, w}); res = Ty{false, w}; }
 			else if (k < 50) { p.push_back({S_BIT, (int)rng.below(Wc), 0}); res = Ty{true, 1}; }
 			else if (k < 70) {
@@ -514,11 +541,12 @@ struct Gen {
 				s.e = genExpr(tt, 2);
 				if (malformed && !didMalform && rng.chance(1, 3)) {
 					didMalform = true;
-					unsigned kind = (unsigned)rng.below(3);
+					unsigned kind = (unsigned)rng.below(4);
 					if (kind == 0 && !tt.isBit && tt.w < 2) kind = 2;   // a *wider* value silently grows a not yet read UInt: not a rejected program
 					switch (kind) {
 						case 0: { Ty wrong = tt.isBit ? Ty{false, 2} : Ty{false, tt.w - 1}; s.e = constOf(wrong); break; }      // width mismatch (narrower value, no expansion policy)
 						case 1: if (!v.ty.isBit) { s.path.clear(); s.path.push_back({S_SLICE, 0, 1}); Expr r; r.k = E_READ; r.ty = Ty{false, 1}; r.x = s.x; r.path.push_back({S_SLICE, v.ty.w, 1}); s.e = r; } else s.e = constOf(Ty{false, 2}); break; // slice read out of bounds (a slice *write* beyond the range is silently accepted by the frontend)
+						case 3: if (!v.ty.isBit) { s.path.clear(); s.path.push_back({S_SLICE, 0, 1}); Expr r; r.k = E_READ; r.ty = Ty{false, 1}; r.x = s.x; Sel q{S_SEL, 1, v.ty.w + 2}; q.form = 'R'; r.path.push_back(q); s.e = r; } else s.e = constOf(Ty{false, 2}); break; // Selection::Range read beyond the parent
 						default: if (!v.ty.isBit) { s.path.clear(); s.path.push_back({S_BIT, v.ty.w, 0}); s.e = constOf(Ty{}); } else s.e = constOf(Ty{false, 3}); break;          // bit index out of bounds
 					}
 				}
@@ -586,6 +614,17 @@ struct Exec {
 	void observe(hlim::NodePort p) { if (p.node) obs.emplace_back(SignalReadPort(p)); else obs.emplace_back('1'); }
 	IValue &ivar(int i) { if (i < 0 || i >= (int)ivars.size()) throw std::runtime_error("unknown integer variable"); return ivars[i]; }
 
+	static Selection selOf(const Sel &s) {
+		switch (s.form) {
+			case 'A': return Selection::All();
+			case 'F': return Selection::From(s.a);
+			case 'R': return Selection::Range((int)s.a, (int)s.b);
+			case 'I': return Selection::RangeIncl((int)s.a, (int)s.b);
+			case 'L': return Selection::Slice((size_t)s.a, (size_t)s.b);
+			case 'Y': return Selection::Symbol((int)s.a, BitWidth((uint64_t)s.b));
+		}
+		throw std::runtime_error("selection form");
+	}
 	const UInt &idxVar(int i) { if (i < 0 || i >= (int)vars.size() || !vars[i].u) throw std::runtime_error("bad index variable"); return *vars[i].u; }
 
 	UInt readU(const UInt &cur, const std::vector<Sel> &p, size_t i) {
@@ -595,6 +634,7 @@ struct Exec {
 			case S_SLICE: return readU(cur((size_t)s.a, BitWidth((uint64_t)s.b)), p, i + 1);
 			case S_DPART: return readU(cur.part((size_t)s.b, idxVar(s.a)), p, i + 1);
 			case S_DSLICE: return readU(cur(idxVar(s.a), BitWidth((uint64_t)s.b)), p, i + 1);
+			case S_SEL: return readU(cur(selOf(s)), p, i + 1);
 			default: throw std::runtime_error("bit selection in the middle of a path");
 		}
 	}
@@ -609,6 +649,7 @@ struct Exec {
 			case S_SLICE: return readB(cur((size_t)s.a, BitWidth((uint64_t)s.b)), p, i + 1);
 			case S_DPART: return readB(cur.part((size_t)s.b, idxVar(s.a)), p, i + 1);
 			case S_DSLICE: return readB(cur(idxVar(s.a), BitWidth((uint64_t)s.b)), p, i + 1);
+			case S_SEL: return readB(cur(selOf(s)), p, i + 1);
 			default: throw std::runtime_error("bit selection in the middle of a path");
 		}
 	}
@@ -681,6 +722,7 @@ struct Exec {
 			case S_SLICE: assignU(cur((size_t)s.a, BitWidth((uint64_t)s.b)), p, i + 1, rhs); return;
 			case S_DPART: assignU(cur.part((size_t)s.b, idxVar(s.a)), p, i + 1, rhs); return;
 			case S_DSLICE: assignU(cur(idxVar(s.a), BitWidth((uint64_t)s.b)), p, i + 1, rhs); return;
+			case S_SEL: assignU(cur(selOf(s)), p, i + 1, rhs); return;
 			case S_BIT: { if (i + 1 != p.size()) throw std::runtime_error("bit selection in the middle of a path"); Bit v = evalB(rhs); cur[(size_t)s.a] = v; return; }
 			case S_DBIT: { if (i + 1 != p.size()) throw std::runtime_error("bit selection in the middle of a path"); Bit v = evalB(rhs); cur[idxVar(s.a)] = v; return; }
 		}
